@@ -1080,10 +1080,9 @@ End RespondExamples.
 (** * Letter case (round 2)
 
     [normalize] lower-cases the domain before anything else, for every kind
-    of entry, the "A"/"AAAA" exceptions included; CheckHost lower-cases the
-    queried name.  So neither the spelling of an entry's domain nor that of
-    the queried name matters.  The ANSWER is not lower-cased; the last part
-    of this section shows what follows for "name -> name" entries. *)
+    of entry, the "A"/"AAAA" exceptions included, and the answer when it is a
+    canonical name; CheckHost lower-cases the queried name.  So neither the
+    spelling of an entry nor that of the queried name matters. *)
 
 Lemma lower_byte_idem b : lower_byte (lower_byte b) = lower_byte b.
 Proof.
@@ -1109,11 +1108,18 @@ Proof.
   destruct (eqb_bytes (w_ans r) ans_A); [reflexivity|]. destruct (w_parse r); reflexivity.
 Qed.
 
-Theorem normalize_ans r : e_ans (normalize r) = w_ans r.
+(** The answer is kept as typed, except that a canonical name is lower-cased. *)
+Theorem normalize_ans r :
+  e_ans (normalize r) = if is_cname (normalize r) then to_lower (w_ans r) else w_ans r.
 Proof.
   unfold normalize. destruct (eqb_bytes (w_ans r) ans_AAAA); [reflexivity|].
-  destruct (eqb_bytes (w_ans r) ans_A); [reflexivity|]. destruct (w_parse r); reflexivity.
+  destruct (eqb_bytes (w_ans r) ans_A); [reflexivity|].
+  destruct (w_parse r) as [i|]; [destruct (ip_is4 i)|]; reflexivity.
 Qed.
+
+Theorem normalize_cname_ans_lower r :
+  is_cname (normalize r) = true -> to_lower (e_ans (normalize r)) = e_ans (normalize r).
+Proof. intros C. rewrite normalize_ans, C. apply to_lower_idem. Qed.
 
 (** Entries that differ only in the letter case of the domain normalise to
     the same entry. *)
@@ -1122,14 +1128,44 @@ Theorem normalize_case_insensitive r r' :
   normalize r = normalize r'.
 Proof. unfold same_name, normalize. intros -> -> ->. reflexivity. Qed.
 
+(** ... and so do CNAME entries that differ only in the letter case of
+    domain and canonical name. *)
+Definition plain_name (r : raw) : Prop :=
+  w_parse r = None /\ w_ans r <> ans_A /\ w_ans r <> ans_AAAA.
+
+Lemma plain_name_cname r : plain_name r -> is_cname (normalize r) = true.
+Proof.
+  intros (P & A & A4). unfold normalize.
+  destruct (eqb_bytes (w_ans r) ans_AAAA) eqn:E1; [apply eqb_bytes_spec in E1; congruence|].
+  destruct (eqb_bytes (w_ans r) ans_A) eqn:E2; [apply eqb_bytes_spec in E2; congruence|].
+  rewrite P. reflexivity.
+Qed.
+
+Theorem normalize_cname_case_insensitive r r' :
+  plain_name r -> plain_name r' ->
+  same_name (w_dom r) (w_dom r') -> same_name (w_ans r) (w_ans r') ->
+  normalize r = normalize r'.
+Proof.
+  intros (P & A & A4) (P' & A' & A4') D N. unfold same_name in *. unfold normalize.
+  destruct (eqb_bytes (w_ans r) ans_AAAA) eqn:E1; [apply eqb_bytes_spec in E1; congruence|].
+  destruct (eqb_bytes (w_ans r) ans_A) eqn:E2; [apply eqb_bytes_spec in E2; congruence|].
+  destruct (eqb_bytes (w_ans r') ans_AAAA) eqn:E3; [apply eqb_bytes_spec in E3; congruence|].
+  destruct (eqb_bytes (w_ans r') ans_A) eqn:E4; [apply eqb_bytes_spec in E4; congruence|].
+  rewrite P, P', D, N. reflexivity.
+Qed.
+
 Definition same_raw (r r' : raw) : Prop :=
-  same_name (w_dom r) (w_dom r') /\ w_ans r = w_ans r' /\ w_parse r = w_parse r'.
+  same_name (w_dom r) (w_dom r') /\
+  ((w_ans r = w_ans r' /\ w_parse r = w_parse r') \/
+   (plain_name r /\ plain_name r' /\ same_name (w_ans r) (w_ans r'))).
 
 Theorem normalize_table_case_insensitive raws raws' :
   Forall2 same_raw raws raws' -> map normalize raws = map normalize raws'.
 Proof.
-  induction 1 as [|r r' l l' (H1 & H2 & H3) _ IH]; cbn; [reflexivity|].
-  rewrite IH, (normalize_case_insensitive r r'); auto.
+  induction 1 as [|r r' l l' (H1 & H2) _ IH]; cbn; [reflexivity|]. rewrite IH. f_equal.
+  destruct H2 as [(H2 & H3)|(H2 & H3 & H4)].
+  - apply normalize_case_insensitive; auto.
+  - apply normalize_cname_case_insensitive; auto.
 Qed.
 
 Theorem normalize_type_exception r qt :
@@ -1169,9 +1205,9 @@ Section CaseInsensitive.
     - rewrite D. exact S.
   Qed.
 
-  (** "Name -> name": the domain in any spelling, the answer in lower case. *)
-  Theorem self_exception_any_case_domain en raws host qt x :
-    In x raws -> same_name (w_dom x) host -> w_ans x = to_lower host ->
+  (** "Name -> name": domain and answer in any spelling. *)
+  Theorem self_exception_any_case en raws host qt x :
+    In x raws -> same_name (w_dom x) host -> same_name (w_ans x) host ->
     is_cname (normalize x) = true ->
     (forall e, In e (map normalize raws) -> e_dom e = to_lower host -> is_cname e = true ->
                e_ans e = to_lower host) ->
@@ -1180,6 +1216,20 @@ Section CaseInsensitive.
     intros X S A C All. apply check_host_self_exception; auto.
     exists (normalize x). split; [apply in_map; auto|]. split; auto.
     rewrite normalize_dom. exact S.
+  Qed.
+
+  (** In a normalised table the premise on the other exact CNAME entries can
+      be stated on the configured entries, without letter case. *)
+  Theorem self_exception_any_case_raw en raws host qt x :
+    In x raws -> same_name (w_dom x) host -> same_name (w_ans x) host ->
+    is_cname (normalize x) = true ->
+    (forall y, In y raws -> same_name (w_dom y) host -> is_cname (normalize y) = true ->
+               same_name (w_ans y) host) ->
+    check_host sort en (map normalize raws) host qt = Some empty_result.
+  Proof.
+    intros X S A C All. eapply self_exception_any_case; eauto.
+    intros e He D Ce. apply in_map_iff in He as (y & <- & Hy).
+    rewrite normalize_ans, Ce. apply All; auto. unfold same_name. rewrite <- normalize_dom. exact D.
   Qed.
 End CaseInsensitive.
 
@@ -1211,55 +1261,30 @@ Module CaseExamples.
       (bs "nas.example.com") qA = Some empty_result.
   Proof. vm_compute. reflexivity. Qed.
 
-  (** "Name -> name" with the domain in capitals and the answer in lower case
-      is an exception ... *)
+  (** "Name -> name" typed with capitals on either side or on both: *)
   Definition tS1 := [raw_of "*.host.test" "1.2.3.4" (v4 16909060); raw_of "Pass.Host.test" "pass.host.test" None].
-  Example self_exception_domain_case :
-    check_host isort true (map normalize tS1) (bs "pass.host.test") qA = Some empty_result.
-  Proof. vm_compute. reflexivity. Qed.
-
-  (** ... but not when the answer carries capitals, even when both sides are
-      typed identically: the answer is compared bytewise with the lower-cased
-      name and pattern. *)
   Definition tS2 := [raw_of "*.host.test" "1.2.3.4" (v4 16909060); raw_of "Pass.Host.test" "Pass.Host.test" None].
   Definition tS3 := [raw_of "*.host.test" "1.2.3.4" (v4 16909060); raw_of "pass.host.test" "Pass.host.test" None].
-  Example self_exception_answer_case_2 :
-    check_host isort true (map normalize tS2) (bs "pass.host.test") qA = answer "Pass.Host.test" [].
-  Proof. vm_compute. reflexivity. Qed.
-  Example self_exception_answer_case_3 :
-    check_host isort true (map normalize tS3) (bs "pass.host.test") qA = answer "Pass.host.test" [ip1234].
+  Example self_exception_mixed_case :
+    check_host isort true (map normalize tS1) (bs "pass.host.test") qA = Some empty_result /\
+    check_host isort true (map normalize tS2) (bs "pass.host.test") qA = Some empty_result /\
+    check_host isort true (map normalize tS3) (bs "PASS.host.test") qA = Some empty_result /\
+    check_host isort true (map normalize tS3) (bs "my.host.test") qA = answer "" [ip1234].
+  Proof. repeat split; vm_compute; reflexivity. Qed.
+
+  Example self_exception_premises :
+    In (raw_of "Pass.Host.test" "Pass.Host.test" None) tS2 /\
+    same_name (bs "Pass.Host.test") (bs "pass.host.test") /\
+    is_cname (normalize (raw_of "Pass.Host.test" "Pass.Host.test" None)) = true.
+  Proof. split; [cbn; auto|]. split; vm_compute; reflexivity. Qed.
+
+  (** A chain through canonical names typed with capitals is followed. *)
+  Example chain_mixed_case :
+    check_host isort true
+      (map normalize [raw_of "x.com" "Host.COM" None; raw_of "host.com" "1.2.3.4" (v4 16909060)])
+      (bs "x.com") qA = answer "host.com" [ip1234].
   Proof. vm_compute. reflexivity. Qed.
 End CaseExamples.
-
-(** The statement one would like: an entry whose answer is its own domain up
-    to letter case passes the name on. *)
-Definition self_exception_any_case_statement : Prop :=
-  forall sort, (forall l, Permutation (sort l) l) -> (forall l, sorted_by_compare (sort l)) ->
-  forall en raws host qt x,
-    In x raws -> same_name (w_dom x) host -> same_name (w_ans x) host ->
-    is_cname (normalize x) = true ->
-    (forall e, In e (map normalize raws) -> e_dom e = to_lower host -> is_cname e = true ->
-               same_name (e_ans e) host) ->
-    check_host sort en (map normalize raws) host qt = Some empty_result.
-
-(** The model of the code as it is refutes it: the entry typed
-    "Pass.Host.test -> Pass.Host.test" under "*.host.test -> 1.2.3.4". *)
-Theorem self_exception_any_case_refuted : ~ self_exception_any_case_statement.
-Proof.
-  intros H.
-  specialize (H isort isort_perm isort_sorted true CaseExamples.tS2 (bs "pass.host.test") qA
-                (CaseExamples.raw_of "Pass.Host.test" "Pass.Host.test" None)).
-  assert (E : check_host isort true (map normalize CaseExamples.tS2) (bs "pass.host.test") qA
-              = Some empty_result).
-  { apply H.
-    - cbn; auto.
-    - vm_compute; reflexivity.
-    - vm_compute; reflexivity.
-    - vm_compute; reflexivity.
-    - intros e He _ C. cbn in He. destruct He as [<-|[<-|[]]]; [vm_compute in C; discriminate|].
-      vm_compute; reflexivity. }
-  rewrite CaseExamples.self_exception_answer_case_2 in E. discriminate.
-Qed.
 
 (** * The response side for every upstream reply, negative ones included *)
 
@@ -1329,22 +1354,22 @@ Section RespondNegative.
     - exfalso. revert C. apply check_host_terminates; auto.
   Qed.
 
-  (** With a failing upstream: whenever the handler did not fail, the
-      question is the original one; and the handler fails only when the one
-      exchange it tried failed. *)
-  Theorem respond_e_question upstream en tbl qname qt p :
-    respond_e sort upstream en tbl qname qt = Some (false, p) -> rp_qname p = qname.
+  (** With a failing upstream too, the message that is sent carries the
+      original question; and the handler fails only when the one exchange it
+      tried failed, with a SERVFAIL. *)
+  Theorem respond_e_question upstream en tbl qname qt f p :
+    respond_e sort upstream en tbl qname qt = Some (f, p) -> rp_qname p = qname.
   Proof.
     unfold respond_e, forward. destruct (check_host sort en tbl qname qt) as [r|]; [|discriminate].
     destruct (r_reason r).
-    - destruct (upstream qname qt) as [[rc ans]|]; intros [= <-]; reflexivity.
-    - destruct (_ && _); [destruct (upstream (r_canon r) qt) as [[rc ans]|]|]; intros [= <-]; reflexivity.
+    - destruct (upstream qname qt) as [[rc ans]|]; intros [= <- <-]; reflexivity.
+    - destruct (_ && _); [destruct (upstream (r_canon r) qt) as [[rc ans]|]|]; intros [= <- <-]; reflexivity.
   Qed.
 
   Theorem respond_e_failed_only_by_upstream upstream en tbl qname qt p :
     respond_e sort upstream en tbl qname qt = Some (true, p) ->
     exists n, rp_upstream p = [(n, qt)] /\ upstream n qt = None /\
-              rp_qname p = n /\ rp_rcode p = rcode_servfail /\ rp_answer p = [].
+              rp_rcode p = rcode_servfail /\ rp_answer p = [].
   Proof.
     unfold respond_e, forward. destruct (check_host sort en tbl qname qt) as [r|]; [|discriminate].
     destruct (r_reason r).
@@ -1355,12 +1380,6 @@ Section RespondNegative.
       exists (r_canon r). cbn. auto.
   Qed.
 End RespondNegative.
-
-(** The statement one would like for a failing exchange too: *)
-Definition question_restored_on_upstream_error_statement : Prop :=
-  forall sort, (forall l, Permutation (sort l) l) ->
-  forall upstream en tbl qname qt f p,
-    respond_e sort upstream en tbl qname qt = Some (f, p) -> rp_qname p = qname.
 
 Module NegativeExamples.
   Import DocExamples.
@@ -1398,45 +1417,13 @@ Module NegativeExamples.
               rp_upstream := [(bs "empty.example", qA)] |}.
   Proof. vm_compute. reflexivity. Qed.
 
-  (** A failing exchange for the canonical name: the SERVFAIL that is sent
-      carries the canonical name as its question. *)
+  (** A failing exchange for the canonical name: a SERVFAIL for the original
+      question. *)
   Definition up_down (name : bytes) (qt : N) : option (N * list rr) :=
     if eqb_bytes name (bs "gone.example") then None else Some (0, []).
   Example upstream_error :
     respond_e isort up_down true tn (bs "a.host.com") qA =
-      Some (true, {| rp_qname := bs "gone.example"; rp_rcode := 2; rp_answer := [];
+      Some (true, {| rp_qname := bs "a.host.com"; rp_rcode := 2; rp_answer := [];
                      rp_upstream := [(bs "gone.example", qA)] |}).
   Proof. vm_compute. reflexivity. Qed.
 End NegativeExamples.
-
-Theorem question_restored_on_upstream_error_refuted :
-  ~ question_restored_on_upstream_error_statement.
-Proof.
-  intros H. specialize (H isort isort_perm _ _ _ _ _ _ _ NegativeExamples.upstream_error).
-  vm_compute in H. discriminate.
-Qed.
-
-(** The two refutations with their witnesses spelled out. *)
-Theorem self_exception_answer_case_witness :
-  exists raws host qt x,
-    In x raws /\ w_ans x = w_dom x /\ same_name (w_dom x) host /\
-    is_cname (normalize x) = true /\
-    (forall e, In e (map normalize raws) -> e_dom e = to_lower host -> is_cname e = true ->
-               same_name (e_ans e) host) /\
-    check_host isort true (map normalize raws) host qt <> Some empty_result.
-Proof.
-  exists CaseExamples.tS2, (bs "pass.host.test"), qA,
-         (CaseExamples.raw_of "Pass.Host.test" "Pass.Host.test" None).
-  split; [cbn; auto|]. split; [reflexivity|]. split; [vm_compute; reflexivity|].
-  split; [vm_compute; reflexivity|]. split.
-  - intros e He _ C. cbn in He. destruct He as [<-|[<-|[]]]; [vm_compute in C; discriminate|].
-    vm_compute; reflexivity.
-  - rewrite CaseExamples.self_exception_answer_case_2. discriminate.
-Qed.
-
-Theorem question_on_upstream_error_witness :
-  exists upstream tbl qname qt p,
-    respond_e isort upstream true tbl qname qt = Some (true, p) /\ rp_qname p <> qname.
-Proof.
-  do 5 eexists. split; [exact NegativeExamples.upstream_error|]. vm_compute. discriminate.
-Qed.
